@@ -119,6 +119,11 @@ def iter_next(it, obj):
         if it.branch(it.binop('Lt', obj.f[0], obj.f[1], 'usize')):
             v = obj.f[0]; obj.f[0] = it.binop('Add', v, 1, 'usize'); return mk_some(v)
         return mk_none()
+    if t is Agg and obj.ty in ('RangeFrom', 'std::ops::RangeFrom'):
+        v = obj.f[0]
+        if it.branch(it.binop('Eq', v, (1 << 64) - 1, 'usize')): raise Panic('attempt to add with overflow (RangeFrom::next)')
+        obj.f[0] = it.binop('Add', v, 1, 'usize')
+        return mk_some(v)
     if t is Agg and obj.ty == 'RangeInclusive':
         # fields: start, end, exhausted
         if obj.f[2] is True: return mk_none()
